@@ -463,6 +463,8 @@ pub enum HostileMut {
     HUpperCase,
     HShort,
     HOfUnknownGroup,
+    /// 64 bytes as required, but with one multi-byte character inside
+    HSameLengthNonAscii(u8),
     ContentNotBase64,
     ContentTruncated,
     ContentEmpty,
@@ -2172,6 +2174,15 @@ impl World {
             H::HUpperCase => (build(same, Kind::MlsGroupMessage, vec![h(tag_hex.to_uppercase())], ts)?, true),
             H::HShort => (build(same, Kind::MlsGroupMessage, vec![h(tag_hex[..62].to_string())], ts)?, false),
             H::HOfUnknownGroup => (build(same, Kind::MlsGroupMessage, vec![h("ab".repeat(32))], ts)?, false),
+            H::HSameLengthNonAscii(n) => {
+                let w = 2 + (n as usize) % 3;
+                let o = (n as usize / 3) % (tag_hex.len().saturating_sub(w) + 1);
+                let ch = ["\u{e9}", "\u{20ac}", "\u{1F600}"][w - 2];
+                if !tag_hex.is_ascii() || tag_hex.len() < w {
+                    return None;
+                }
+                (build(same, Kind::MlsGroupMessage, vec![h(format!("{}{}{}", &tag_hex[..o], ch, &tag_hex[o + w..]))], ts)?, false)
+            }
             H::ContentNotBase64 => (build("*** not base64 ***".into(), Kind::MlsGroupMessage, vec![h(tag_hex.clone())], ts)?, false),
             H::ContentTruncated => (build(same[..same.len() / 2].to_string(), Kind::MlsGroupMessage, vec![h(tag_hex.clone())], ts)?, false),
             H::ContentEmpty => (build(String::new(), Kind::MlsGroupMessage, vec![h(tag_hex.clone())], ts)?, false),
